@@ -269,6 +269,12 @@ pub fn generate(seed: u64, tier: &str, sink: &mut Sink) {
     stalls.push(Stall { name: "tiny-T-stall-before-head", scripts: vec![vec![Srv::ReadRequest, Srv::Hold(3000)]], timeout: Some(0), read_timeout: 5000, body: 0, bound: margin, must_fail: true, https_via_proxy: false, redirects: false });
     stalls.push(Stall { name: "tiny-T-drip-body", scripts: vec![vec![Srv::ReadRequest, Srv::Send(b"HTTP/1.1 200 OK\r\nContent-Length: 40\r\n\r\n".to_vec()), Srv::Drip(vec![b'x'; 40], 40), Srv::Hold(500)]], timeout: Some(0), read_timeout: 5000, body: 0, bound: margin, must_fail: true, https_via_proxy: false, redirects: false });
     stalls.push(Stall { name: "tiny-T-stall-close-delimited", scripts: vec![vec![Srv::ReadRequest, Srv::Send(b"HTTP/1.1 200 OK\r\n\r\nstart".to_vec()), Srv::Hold(3000)]], timeout: Some(0), read_timeout: 5000, body: 0, bound: margin, must_fail: true, https_via_proxy: false, redirects: false });
+    // T = 0 exactly (a caller handing over "what is left of my own deadline" once that has passed): the budget is
+    // used up, the call comes back at once — it is not the one request that is not bounded at all (seed C13-seed11:
+    // zero stored as "no timeout"). Phases whose name starts with `zero-T` run with Duration::ZERO.
+    stalls.push(Stall { name: "zero-T-stall-before-head", scripts: vec![vec![Srv::ReadRequest, Srv::Hold(3000)]], timeout: Some(0), read_timeout: 2000, body: 0, bound: margin, must_fail: true, https_via_proxy: false, redirects: false });
+    stalls.push(Stall { name: "zero-T-drip-body", scripts: vec![vec![Srv::ReadRequest, Srv::Send(b"HTTP/1.1 200 OK\r\nContent-Length: 40\r\n\r\n".to_vec()), Srv::Drip(vec![b'x'; 40], 40), Srv::Hold(500)]], timeout: Some(0), read_timeout: 2000, body: 0, bound: margin, must_fail: true, https_via_proxy: false, redirects: false });
+    stalls.push(Stall { name: "zero-T-tunnel-stall-before-connect-reply", scripts: vec![vec![Srv::ReadRequest, Srv::Hold(3000)]], timeout: Some(0), read_timeout: 2000, body: 0, bound: margin, must_fail: true, https_via_proxy: true, redirects: false });
     // the deadline passes between two redirect hops: the second connection is made at (about) the deadline
     for (name, ms) in [("deadline-between-hops-a", 288u64), ("deadline-between-hops-b", 294), ("deadline-between-hops-c", 298)] {
         let scripts = vec![
@@ -302,9 +308,17 @@ pub fn generate(seed: u64, tier: &str, sink: &mut Sink) {
                 let url = if st.https_via_proxy { "https://origin.test/".to_string() } else { format!("http://127.0.0.1:{}/", port) };
                 let slow_tunnel = st.name.starts_with("tunnel-slow");
                 attohttpc::verif_hooks::set_plain_tunnels(slow_tunnel);
-                let mut rb = attohttpc::post(&url).read_timeout(Duration::from_millis(st.read_timeout)).connect_timeout(Duration::from_millis(if slow_tunnel { 300 } else { 1000 })).follow_redirects(st.redirects).max_redirections(10);
+                // (one zero-T row sets the zero on a request of a session that has a timeout of its own)
+                let start = if st.name == "zero-T-drip-body" {
+                    let mut sess = attohttpc::Session::new();
+                    sess.timeout(Duration::from_millis(300));
+                    sess.post(&url)
+                } else {
+                    attohttpc::post(&url)
+                };
+                let mut rb = start.read_timeout(Duration::from_millis(st.read_timeout)).connect_timeout(Duration::from_millis(if slow_tunnel { 300 } else { 1000 })).follow_redirects(st.redirects).max_redirections(10);
                 if let Some(t) = st.timeout {
-                    rb = rb.timeout(if t == 0 { Duration::from_micros(1) } else { Duration::from_millis(t) });
+                    rb = rb.timeout(if st.name.starts_with("zero-T") { Duration::ZERO } else if t == 0 { Duration::from_micros(1) } else { Duration::from_millis(t) });
                 }
                 if st.https_via_proxy {
                     rb = rb.proxy_settings(attohttpc::ProxySettings::builder().https_proxy(url::Url::parse(&format!("http://127.0.0.1:{}", port)).ok()).build());
